@@ -77,10 +77,10 @@ def diffReasons (mode : String) (hasOld : Bool) (oldTerm newTerm : Bool) (old ne
       else []
     r1 ++ r2 ++ r3 ++ r4 ++ r5
 
-/-- class D-C04-2 (known finding): the only thing wrong is that the unterminated last line of the
-    new file is not reported — the predicate holds once that line is added to the report -/
+/-- class D-C04-2 (known finding, precision 2 and 3 only — the chunk walk that counts newline
+    characters): the only thing wrong is that the unterminated last line of the new file is not reported — the predicate holds once that line is added to the report -/
 def lastLineClass (mode : String) (hasOld oldTerm newTerm : Bool) (old new : List Line) (ans : Option (List Range)) : Bool :=
-  !newTerm && !new.isEmpty &&
+  (mode == "2" || mode == "3") && !newTerm && !new.isEmpty &&
     (let rs := (ans.getD []).filter (fun r => r.2 != 0)
      let rs' := rs ++ [(new.length, 1)]
      !covered rs new.length && (diffReasons mode hasOld oldTerm newTerm old new (some rs')).isEmpty)
